@@ -39,7 +39,9 @@ MANIFEST = dict(
          "C06_idempotent_fill / C06_crc_partial_fill that fills are idempotent; C06_pure (isolation under every interleaving, in the model); "
          "C06_leak_if_unreset (non-vacuity: dropping one reset makes the statement false). The model is tied to the C on every run by a "
          "differential correspondence of each modelled operation over the complete context image (and of the set of members playing may "
-         "change), and the property itself is searched directly on the real library (fresh vs reused vs restarted contexts, enumerated "
+         "change), by a per-member poison test (every non-pointer member of the model's LoadResets / StartResets sets, proved sound and "
+         "exhaustive in C06_poison_sets, is overwritten with a sentinel on the reused context before load / xmp_start_player and must "
+         "come out equal to the fresh context), and the property itself is searched directly on the real library (fresh vs reused vs restarted contexts, enumerated "
          "and sampled interleavings of two contexts, real threads, TSan in the thorough tier).",
     note="Trusted: Lean kernel (propext/Classical.choice/Quot.sound), tools/gen_ctx_fields.py + gen_globals.py, the hand-written model "
          "XmpModel/Reset.lean, harnesses and differ. Modelled-not-verified: what format loaders, module_quirks/libxmp_set_player_mode, the "
@@ -60,12 +62,14 @@ NS = "Xmp.Reset."
 REQUIRED = [NS + n for n in (
     "C06_history_independent", "C06_loaded_view", "C06_reset_complete", "C06_fields_classified", "C06_globals_whitelisted",
     "C06_idempotent_fill", "C06_crc_partial_fill", "C06_pure", "C06_persistent_kept", "C06_leak_if_unreset",
-    "C06_restart_independent", "C06_crc_table_const")]
+    "C06_restart_independent", "C06_crc_table_const", "C06_poison_sets")]
 
 # members the model declares not to be reset / not always live (must mirror Xmp.Reset.Dead / Live; checked by drv output)
 MODEL_DEAD = set()       # filled from the driver (`sets`): Xmp.Reset.Dead
 MODEL_PARTIAL = set()    # Xmp.Reset.PartialField
 MODEL_B = set()          # Xmp.Reset.B: members that must not change while a module is played
+MODEL_LOAD_POISON = set()    # Xmp.Reset.LoadResets (non-pointer): re-initialised by every successful load
+MODEL_START_POISON = set()   # Xmp.Reset.StartResets (non-pointer): rewritten by xmp_start_player without being read
 # the FAR tempo/vibrato extras behind m.extra are player-run state (restored by libxmp_reset_module_extras);
 # the random generator state advances while playing and is pinned by the property's premise (the harness pins it)
 RUN_STATE_POINTEES = {"m_extra", "rng_state"}
@@ -87,6 +91,15 @@ def load_model_sets(ck):
             MODEL_PARTIAL.update(f[1:])
         elif f and f[0] == "setB":
             MODEL_B.update(f[1:])
+        elif f and f[0] == "setLoadPoison":
+            MODEL_LOAD_POISON.update(f[1:])
+        elif f and f[0] == "setStartPoison":
+            MODEL_START_POISON.update(f[1:])
+    if MODEL_LOAD_POISON or MODEL_START_POISON:
+        path = os.path.join(vlib.OUT, "c06-poison-sets.txt")
+        open(path, "w").write("".join("load %s\n" % x for x in sorted(MODEL_LOAD_POISON)) +
+                              "".join("start %s\n" % x for x in sorted(MODEL_START_POISON)))
+        POISON_ENV["C06_POISON"] = path
 # opaque pointee (format specific), compared by NULL-ness only
 OPAQUE = {"m_extra"}
 
@@ -172,7 +185,7 @@ def split_cases(text):
 
 
 def replay_text_hist(case):
-    return "\n".join(l for l in case["lines"] if l.startswith(("case ", "H ", "C ", "PR ", "R "))) + "\n"
+    return "\n".join(l for l in case["lines"] if l.startswith(("case ", "H ", "C ", "PR ", "R ", "PO "))) + "\n"
 
 
 def replay_text_iso(case, order=None, nthreads=0):
@@ -190,9 +203,12 @@ def path_of(ctor, leaves):
     return ctor
 
 
+POISON_ENV = {}           # {"C06_POISON": path} once the model's poison sets are known
+
+
 def run_shard(args):
     exe, argv = args
-    rc, out, err = vlib.run_exe(exe, argv, timeout=3000)
+    rc, out, err = vlib.run_exe(exe, argv, timeout=3000, env=POISON_ENV or None)
     return rc, out.decode("latin-1"), err
 
 
@@ -229,8 +245,14 @@ def judge_hist(ck, c, leaves, st, dead_seen, hist_states, played_seen, kind="his
     for d in played:
         played_seen[d[1]] = played_seen.get(d[1], 0) + 1
     unexpected += [d for d in played if d[1] in MODEL_B and d[1] not in RUN_STATE_POINTEES]
+    # right after the load: every member the model says a load re-initialises agrees (poisoned or not)
+    unexpected += [l.split() for l in lines if l.startswith("diff_loaded ") and l.split()[1] in MODEL_LOAD_POISON]
+    if any(l.startswith("poison load") for l in lines):
+        st["poisoned_cases"] = st.get("poisoned_cases", 0) + 1
     for d in diffs:
         dead_seen[d[1]] = dead_seen.get(d[1], 0) + 1
+    # name the leaking member by a scalar the model says is reset, rather than by a pointee digest that follows from it
+    unexpected.sort(key=lambda d: 0 if d[1] in MODEL_LOAD_POISON or d[1] in MODEL_START_POISON else 1)
     if fails:
         field = path_of(unexpected[0][1], leaves) if unexpected else None
         if field == "m.extra":
@@ -246,7 +268,8 @@ def judge_hist(ck, c, leaves, st, dead_seen, hist_states, played_seen, kind="his
                     "case %s: %s: member %s differs between the reused and the fresh context "
                     "(index %s: fresh %s reused %s) but the model says it is %s; replay script:\n%s" % (
                         c["head"], d[0], path_of(d[1], leaves), d[2], d[3], d[4],
-                        "not changed by playing (set B)" if d[0] == "diff_played" else "reset", replay_text_hist(c)))
+                        "not changed by playing (set B)" if d[0] == "diff_played" else
+                        "re-initialised by load (LoadResets)" if d[0] == "diff_loaded" else "reset", replay_text_hist(c)))
     elif compared:
         ck.cov["traces_validated_against_impl"] += 1
 
@@ -344,7 +367,7 @@ def check_restart_sweep(ck, exe, mods, fields, configs):
     def one(text):
         path = os.path.join(vlib.OUT, "c06-sweep-%s.txt" % vlib.hashlib.sha256(text.encode()).hexdigest()[:12])
         open(path, "w").write(text)
-        rc, out, err = vlib.run_exe(exe, ["--replay", path], timeout=600)
+        rc, out, err = vlib.run_exe(exe, ["--replay", path], timeout=600, env=POISON_ENV or None)
         try:
             os.unlink(path)
         except OSError:
@@ -366,6 +389,135 @@ def check_restart_sweep(ck, exe, mods, fields, configs):
     for k, v in st.items():
         ck.note("sweep_" + k, v)
     ck.note("sweep_members_changed_by_playing", sorted(played_seen))
+
+
+def _pt_header(title, magic, orders, ice=False):
+    """31-instrument Protracker-style header (also the Soundtracker 2.6 / Ice Tracker layout when `ice`)"""
+    h = bytearray(title.encode().ljust(20, b"\0"))
+    for i in range(31):
+        if i == 0:      # one looped 1024-byte sample, volume 64
+            h += b"synth".ljust(22, b"\0") + struct.pack(">HBBHH", 512, 0, 64, 0, 512)
+        else:
+            h += b"".ljust(22, b"\0") + struct.pack(">HBBHH", 0, 0, 0, 0, 1)
+    return h
+
+
+def _pt_event(period, ins, fxt, fxp):
+    return bytes([(ins & 0xf0) | (period >> 8), period & 0xff, ((ins & 0x0f) << 4) | fxt, fxp])
+
+
+def _sample_bytes():
+    return bytes((64 if (i // 16) % 2 else 192) for i in range(1024))      # square wave, signed 8 bit
+
+
+def synth_modules():
+    """Small synthetic modules that SET members no corpus module sets (so that histories can leak them):
+    mk_high_fxx.mod   M.K. with a lone F20 -> the MOD loader leaves m.compare_vblank = 1 (CIA/VBlank undecided)
+    st26_speed.mod    Soundtracker 2.6 (`MTN\\0`) with F36 -> alternating two-nibble speed in p.st26_speed
+    flt4_long.mod     Startrekker FLT4, 20 orders of F20/F06 rows: >= 8 min under CIA timing, much shorter under VBlank
+                      (what a leaked compare_vblank changes)"""
+    d = os.path.join(vlib.OUT, "c06-synth")
+    os.makedirs(d, exist_ok=True)
+    out = []
+
+    def pattern(rows):          # rows: {row: [4 events]}
+        b = bytearray()
+        for r in range(64):
+            evs = rows.get(r, [])
+            for c in range(4):
+                b += evs[c] if c < len(evs) else bytes(4)
+        return bytes(b)
+    note = lambda fxt=0, fxp=0: _pt_event(428, 1, fxt, fxp)  # noqa: E731
+    # M.K., one order, F20 on row 0 only
+    h = _pt_header("c06 mk high fxx", b"M.K.", [0])
+    h += bytes([1, 0x7f]) + bytes([0] * 128) + b"M.K."
+    rows = {0: [note(0xf, 0x20)], 8: [note()], 16: [note()], 24: [note()]}
+    p = os.path.join(d, "mk_high_fxx.mod")
+    open(p, "wb").write(bytes(h) + pattern(rows) + _sample_bytes())
+    out.append(p)
+    # FLT4, 20 orders of the same pattern: F20 on row 0, F06 on row 1
+    h = _pt_header("c06 flt4 long", b"FLT4", [0] * 20)
+    h += bytes([20, 0x7f]) + bytes([0] * 128) + b"FLT4"
+    rows = {0: [note(0xf, 0x20)], 1: [note(0xf, 0x06)], 9: [note()], 17: [note()], 33: [note()]}
+    p = os.path.join(d, "flt4_long.mod")
+    open(p, "wb").write(bytes(h) + pattern(rows) + _sample_bytes())
+    out.append(p)
+    # Soundtracker 2.6: len, ntracks, 128 x 4 track numbers, magic, tracks of 64 x 4 bytes
+    h = _pt_header("c06 st26 speed", b"MTN\0", None, ice=True)
+    ords = bytearray(512)
+    ords[0:4] = bytes([0, 1, 1, 1])
+    ords[4:8] = bytes([2, 1, 1, 1])
+    h += bytes([2, 3]) + bytes(ords) + b"MTN\0"
+    trk0 = bytearray(256)
+    trk0[0:4] = note(0xf, 0x36)
+    for r in (8, 16, 24, 40):
+        trk0[4 * r:4 * r + 4] = note()
+    trk2 = bytearray(256)
+    for r in (0, 8, 16, 32):
+        trk2[4 * r:4 * r + 4] = note()
+    p = os.path.join(d, "st26_speed.mod")
+    open(p, "wb").write(bytes(h) + bytes(trk0) + bytes(256) + bytes(trk2) + _sample_bytes())
+    out.append(p)
+    return out
+
+
+def regression_inputs():
+    """Damaged inputs kept as regression witnesses of repaired defects (heap-fill pass).
+    no_playable_order.it: storlek_06.it with bytes 192, 302 changed -> no playable order (len 0); scan_module left
+    p.scan[0].num/.row/.ord uninitialised (signature uninit-heap:p.scan, repaired)."""
+    d = os.path.join(vlib.OUT, "c06-synth")
+    os.makedirs(d, exist_ok=True)
+    out = []
+    src = REPO_DATA("storlek_06.it")
+    if os.path.exists(src):
+        b = bytearray(open(src, "rb").read())
+        if len(b) > 302:
+            b[192], b[302] = 97, 33
+            p = os.path.join(d, "no_playable_order.it")
+            open(p, "wb").write(bytes(b))
+            out.append(p)
+    return out
+
+
+def check_feature_matrix(ck, exe, fields, setters, targets):
+    """setter module x target module: the setter is loaded and played on the reused context, then the target is
+    loaded and started on it and on a fresh context (no poisoning): members only special modules set must not leak."""
+    leaves = fields["ctx"]
+    jobs = []
+    for s_ in setters:
+        for t in targets:
+            for rel in (0, 1):
+                jobs.append("case 0 hist %s rate 44100 fmt 0 smix 0 mem 0 rng 12345\nH load 0 0 0 0 %s\nH start 22050 0 0 0\n"
+                            "H frames 40 0 0 0\n%sC getinfo 0 0 0 0\nC frames 60 0 0 0\n" % (
+                                t, s_, "H release 0 0 0 0\n" if rel else ""))
+        # and a second player run of the setter itself
+        jobs.append("case 0 hist %s rate 44100 fmt 0 smix 0 mem 0 rng 12345\nPR 22050 0 1\nR frames 40 0 0 0\n"
+                    "C getinfo 0 0 0 0\nC frames 60 0 0 0\n" % s_)
+
+    def one(text):
+        path = os.path.join(vlib.OUT, "c06-feat-%s.txt" % vlib.hashlib.sha256(text.encode()).hexdigest()[:12])
+        open(path, "w").write(text)
+        rc, out, err = vlib.run_exe(exe, ["--replay", path], timeout=600)
+        try:
+            os.unlink(path)
+        except OSError:
+            pass
+        return text, rc, out.decode("latin-1"), err
+    st = {"hist_cases": 0, "hist_compared": 0, "load_failed": 0, "frames": 0, "image_leaves_compared": 0, "nonsilent_cases": 0,
+          "restart_cases": 0}
+    dead_seen, hist_states, played_seen = {}, {}, {}
+    for text, rc, out, err in vlib.pmap(one, jobs):
+        if rc == 2:
+            raise vlib.InfraError("c06_reset --replay rejected a feature script:\n%s\n%s" % (text, err[-500:]))
+        if rc != 0 and "REPLAY:" not in out:
+            sig = vlib.sanitizer_signature(err)
+            ck.violation("harness-abort:" + sig, {"harness": "c06_reset", "script": text, "stderr": err[-3000:]},
+                         "c06_reset aborted in the setter x target matrix (rc=%d): %s" % (rc, sig))
+            continue
+        for c in split_cases(out):
+            judge_hist(ck, c, leaves, st, dead_seen, hist_states, played_seen, kind="feature")
+    for k, v in st.items():
+        ck.note("feature_" + k, v)
 
 
 def it_has_compressed_samples(path):
@@ -427,6 +579,7 @@ def damaged_variants(ck, mods, nbase, per):
 
 
 HEAP_FILLS = (0, 165)
+LEAVES = []               # generated leaf list (set in run / replay)
 
 
 def check_heapfill(ck, exe, mods):
@@ -453,14 +606,21 @@ def check_heapfill(ck, exe, mods):
             continue
         a, b = res[0][1].splitlines(), res[1][1].splitlines()
         digs = [l.split() for l in a if l.startswith("dig ")]
+        
         if any(d[3] == "0" for d in digs):
             st["loaded"] += 1
         st["rendered_frames"] += sum(int(d[7]) for d in digs)
         ck.count("heapfill:" + vlib.hashlib.sha256(open(m, "rb").read()).hexdigest()[:16],
                  nontrivial=any(d[3] == "0" and int(d[7]) > 0 for d in digs))
         if a != b:
-            bad = [(x, y) for x, y in zip(a, b) if x != y][:2]
-            ck.violation("uninit-heap:" + os.path.basename(m),
+            bad = [(x, y) for x, y in zip(a, b) if x != y and x.startswith("dig ")][:2] or \
+                  [(x, y) for x, y in zip(a, b) if x != y][:2]
+            members = []
+            for x, y in zip(a, b):
+                if x.startswith("digm ") and x != y:
+                    members += [u.split("=")[0] for u, v in zip(x.split()[2:], y.split()[2:]) if u != v]
+            member = path_of(members[0], LEAVES) if members else "output"
+            ck.violation("uninit-heap:%s:%s" % (member, os.path.basename(m)),
                          {"harness": "c06_reset", "digest": [m], "fills": list(HEAP_FILLS),
                           "module_hex": open(m, "rb").read().hex() if os.path.getsize(m) < 250000 else None,
                           "lines": [list(x) for x in bad]},
@@ -484,7 +644,7 @@ def check_regressions(ck, exe):
         path = os.path.join(vlib.OUT, "c06-regress-%d.txt" % n)
         open(path, "w").write(text)
         n += 1
-        rc, out, err = vlib.run_exe(exe, ["--replay", path], timeout=300)
+        rc, out, err = vlib.run_exe(exe, ["--replay", path], timeout=300, env=POISON_ENV or None)
         o = out.decode("latin-1")
         if rc != 0 and "REPLAY:" not in o:
             ck.violation(sig, {"harness": "c06_reset", "script": text, "stderr": err[-2000:]},
@@ -562,7 +722,12 @@ def check_isolation(ck, exe, mods, ncases, maxenum, nthreads, nshards, variant="
 
 
 def sweep_mods_all(mods):
-    return mods + [f for f in openmpt_files() if f not in mods and os.path.getsize(f) < 300000]
+    seen, uniq = set(), []
+    for f in mods:
+        if f not in seen:
+            seen.add(f)
+            uniq.append(f)
+    return uniq + [f for f in openmpt_files() if f not in seen and os.path.getsize(f) < 300000]
 
 
 def run(ck):
@@ -570,19 +735,23 @@ def run(ck):
     fields = gen_ctx_fields.generate()
     globs = gen_globals.generate()
     ck.note("context_data_leaves", len(fields["ctx"]))
+    LEAVES[:] = fields["ctx"]
     ck.note("writable_globals", ["%s:%s" % (g["file"], g["name"]) for g in globs["globals"]])
     ck.proofs(["XmpProps.C06"], required=REQUIRED, drivers=["drv_c06"])
 
     load_model_sets(ck)
-    mods = pick_modules(ck, 56 if quick else 220)
+    synth = synth_modules()
+    mods = synth + synth + pick_modules(ck, 56 if quick else 220)      # synthetic setters weigh double in random picks
     ck.note("modules", len(mods))
     ex_reset = build("c06_reset")
     ex_iso = build("c06_isolation")
     check_regressions(ck, ex_reset)
+    tg = [f for f in mods if f not in synth]
+    check_feature_matrix(ck, ex_reset, fields, synth, synth + tg[:6 if quick else 30])
     # damaged inputs + allocator-content independence; damaged files that load cleanly also join the pool below
     damaged = damaged_variants(ck, mods, 24 if quick else 90, 3 if quick else 6)
     ck.note("damaged_variants", len(damaged))
-    usable = check_heapfill(ck, ex_reset, sweep_mods_all(mods) + damaged)
+    usable = check_heapfill(ck, ex_reset, sweep_mods_all(mods) + regression_inputs() + damaged)
     dmg_ok = [f for f in damaged if f in usable]
     ck.rng.shuffle(dmg_ok)
     mods = mods + dmg_ok[:12 if quick else 60]
@@ -616,6 +785,8 @@ def run(ck):
 
 
 def replay(ck, rp):
+    ck.lean_ok = os.path.exists(vlib.lean_driver("drv_c06"))
+    load_model_sets(ck)
     r = rp["replay"]
     if isinstance(r, list):
         print("unproved obligations / correspondences recorded:")
@@ -649,7 +820,7 @@ def replay(ck, rp):
     else:
         path = os.path.join(vlib.OUT, "c06-replay-script.txt")
         open(path, "w").write(script)
-        rc, out, err = vlib.run_exe(exe, ["--replay", path], timeout=3000)
+        rc, out, err = vlib.run_exe(exe, ["--replay", path], timeout=3000, env=POISON_ENV or None)
     o = out.decode("latin-1")
     print("\n".join(l for l in o.splitlines() if not l.startswith(("val ", "pre ", "post ")))[-3000:])
     print(err[-3000:])
